@@ -193,6 +193,10 @@ def gen_plan_c09b(seed, tier, index):
             b = r.randint(2, 9)
             lines.append({'blocks': b, 'frames': b, 'seed': r.randrange(1 << 30), 'amb': r.choice([0.3, 0.6, 0.8])})
         pages.append({'id': r.choice(['doc', 'scan.0', 'b']) + str(k), 'ext': '.png', 'lines': lines, 'regions': r.choice([1, 1, 2])})
+    if r.random() < 0.35:
+        # ids where one is a prefix of another and continues with a character that sorts before '.'
+        for k, pid in enumerate(['scan', 'scan-verso', 'scan (2)'][:npages]):
+            pages[k]['id'] = pid
     fault_free = r.random() < 0.4
     plan = {'world': 'pf9', 'mode': 'ocr', 'with_images': False, 'cfg': cfg, 'pages': pages,
             'outputs': ['xml', 'logits'] + (['alto'] if r.random() < 0.3 else []), 'procs': 1,
